@@ -371,6 +371,20 @@ func c16PartA(t *zsim.Tape, cfg *hlib.Config) *hlib.Outcome {
 // ------------------------------------------------------------------ part B
 
 func c16PartB(t *zsim.Tape, cfg *hlib.Config) *hlib.Outcome {
+	// one part-B run in three is executed in a freshly exec'ed process: every process-wide
+	// cache and lazily initialised table is cold there, as it is for the first requests a
+	// server process ever sees
+	if t.Draw(3) == 2 && cfg.Int("coldchild", 0) == 0 {
+		o, err := hlib.RunCold(t, cfg)
+		if err != nil {
+			return &hlib.Outcome{Sig: "harness:cold-child-failed", Detail: err.Error()}
+		}
+		if o.Note == nil {
+			o.Note = map[string]int{}
+		}
+		o.Note["partB-runs-in-a-cold-process"]++
+		return o
+	}
 	sc := &c16Scenario{Part: "B:concurrent"}
 	out := &hlib.Outcome{Scenario: sc, Note: map[string]int{}}
 	n := 2 + t.Draw(3)
@@ -379,7 +393,7 @@ func c16PartB(t *zsim.Tape, cfg *hlib.Config) *hlib.Outcome {
 	if playground {
 		sc.Handler = "ZnPlaygroundHandler"
 	}
-	variant := t.Draw(5)
+	variant := t.Draw(6)
 	mkBody := func(i int) string {
 		if playground {
 			var src, vin string
@@ -388,6 +402,8 @@ func c16PartB(t *zsim.Tape, cfg *hlib.Config) *hlib.Outcome {
 				src = fmt.Sprintf("令甲 = %d\n令乙 = 甲 * 2\n如何名？\n\t输出“请求%d”\n\n输出以（名）（拼接：“·”、“%d”）", i, i, i*2)
 			case 1: // input variables evaluated by ExecVarInputText
 				src, vin = "输入甲\n输出甲 * 3", fmt.Sprintf("甲 = %d", i)
+			case 5: // dictionary / list built-ins whose argument validation goes through shared helpers
+				src = fmt.Sprintf("令典 = 【“k” = %d，“内” = 【“j” = “r%d”】】\n令表 = 【1，2】\n以表（后增：%d）\n令得 = 以典（读取：“内”、“j”）\n输出以得（拼接：“·”、“%d”）", i, i, i, i)
 			case 4: // the predefined random function (its value must not influence the response)
 				src = fmt.Sprintf("令随 = （取随机数）\n令又 = （取随机数）\n输出“r%d”", i)
 			case 2: // an exception caught inside the request
@@ -435,7 +451,6 @@ func c16PartB(t *zsim.Tape, cfg *hlib.Config) *hlib.Outcome {
 	defer w.Leave()
 	for i := 0; i < n; i++ {
 		sc.Requests = append(sc.Requests, mkBody(i+1))
-		sc.Solo = append(sc.Solo, serve(mkHandler(), sc.Requests[i])) // alone, fresh interpreter
 	}
 	// concurrent: one handler, one shared interpreter
 	w.StartScheduler()
@@ -451,11 +466,27 @@ func c16PartB(t *zsim.Tape, cfg *hlib.Config) *hlib.Outcome {
 	}
 	res := w.Run(1<<40, 400000, nil)
 	races := zsim.TrackEnd(w)
+	steps, il := w.Steps(), w.Interleaving()
 	out.Trace = w.Trace()
-	out.Keys = []string{fmt.Sprintf("B|%s|v%d|n=%d|il:%x", sc.Handler, variant, n, w.Interleaving())}
-	out.Note["partB-steps"] = w.Steps()
+	w.StopScheduler()
+	// the references: every request served alone on a fresh interpreter (after the concurrent
+	// phase, so that they do not warm anything up for it)
+	for i := 0; i < n; i++ {
+		sc.Solo = append(sc.Solo, serve(mkHandler(), sc.Requests[i]))
+	}
+	out.Keys = []string{fmt.Sprintf("B|%s|v%d|n=%d|il:%x", sc.Handler, variant, n, il)}
+	out.Probes = w.Probes
+	out.Note["partB-steps"] = steps
 	if res.Reason == "steps" {
 		out.Note["partB-step-cap"]++
+	}
+	for i := range sc.Solo {
+		if !strings.HasPrefix(sc.Solo[i], "200 ") {
+			// a generated request that does not even succeed alone tests nothing: fail loudly
+			out.Sig = "harness:partB-request-invalid"
+			out.Detail = fmt.Sprintf("request %d served alone answers %q", i+1, sc.Solo[i])
+			return out
+		}
 	}
 	for i := range sc.Conc {
 		if sc.Conc[i] != sc.Solo[i] {
